@@ -1,5 +1,6 @@
 import Casket.Proofs.Dispenser
 import Casket.Model.Exec
+import Casket.Proofs.Exec
 import Casket.Generated.SetupBounds
 /-
 C11 — Every directive's setup is total: error or success, never a crash.   (partial, see docs/C11.md)
@@ -132,6 +133,50 @@ theorem C11_validate_runs_all_calls {σ ε : Type} (setup : Call → σ → Exce
     cases runCalls setup (callsFor dir blocks) s with
     | error e => rfl
     | ok s1 => exact ih s1
+
+/-- The same without assuming anything about the callbacks' success, for the instance the stream c11.exec runs
+against the real `ValidateAndExecuteDirectives` (setups that record their call and fail on demand; callbacks
+after some directives that record themselves, one of which may fail): the setup calls of a start are a prefix
+of the setup calls of a validation — same calls, same tokens, same order — and unless the failing callback
+actually ran, the two loads make exactly the same calls and both succeed or both fail. -/
+theorem C11_start_makes_validations_setup_calls (fails : Call → Bool) (cbs : List Bytes) (fd : Option Bytes)
+    (blocks : List Block) (dirs : List Bytes) :
+    (traceOf (execute (recSetup fails) (recCallback cbs fd) false blocks dirs [])).filter Ev.isSetup <+:
+      traceOf (execute (recSetup fails) (recCallback cbs fd) true blocks dirs []) ∧
+    ((∀ d, fd = some d → Ev.callback d ∉ traceOf (execute (recSetup fails) (recCallback cbs fd) false blocks dirs [])) →
+      (traceOf (execute (recSetup fails) (recCallback cbs fd) false blocks dirs [])).filter Ev.isSetup =
+        traceOf (execute (recSetup fails) (recCallback cbs fd) true blocks dirs []) ∧
+      isOk (execute (recSetup fails) (recCallback cbs fd) false blocks dirs []) =
+        isOk (execute (recSetup fails) (recCallback cbs fd) true blocks dirs [])) :=
+  start_vs_validate fails cbs fd blocks dirs [] [] rfl
+
+/-- … which is the judge of c11.exec (`startAgrees`) applied to the model's own traces: the model's answer is
+always judged ok. -/
+theorem C11_exec_model_verdict_ok (fails : Call → Bool) (cbs : List Bytes) (fd : Option Bytes)
+    (blocks : List Block) (dirs : List Bytes) :
+    let v := execute (recSetup fails) (recCallback cbs fd) true blocks dirs []
+    let s := execute (recSetup fails) (recCallback cbs fd) false blocks dirs []
+    startAgrees (traceOf v) ((traceOf s).filter Ev.isSetup) (isOk v) (isOk s)
+      (match fd with | some d => (traceOf s).contains (Ev.callback d) | none => false) = true := by
+  intro v s
+  obtain ⟨h1, h2⟩ := C11_start_makes_validations_setup_calls fails cbs fd blocks dirs
+  unfold startAgrees
+  simp only [Bool.and_eq_true, Bool.or_eq_true, List.isPrefixOf_iff_prefix, beq_iff_eq]
+  refine ⟨h1, ?_⟩
+  cases hfd : fd with
+  | none =>
+    refine Or.inr ?_
+    obtain ⟨e1, e2⟩ := h2 (fun d hd => by rw [hfd] at hd; cases hd)
+    exact ⟨e1, e2.symm⟩
+  | some d =>
+    by_cases hc : (traceOf s).contains (Ev.callback d) = true
+    · exact Or.inl hc
+    · refine Or.inr ?_
+      obtain ⟨e1, e2⟩ := h2 (fun d' hd' => by
+        rw [hfd] at hd'; cases hd'
+        intro hmem
+        exact hc (List.contains_iff_mem.mpr hmem))
+      exact ⟨e1, e2.symm⟩
 
 /-- the judge of the search stream accepts exactly the outcome the property demands -/
 theorem C11_model_verdict_ok : setupVerdict "total" = "ok" := by decide
